@@ -6,7 +6,7 @@
 -/
 import SV.Persist.Proofs
 import SV.Persist.CrashProofs
-import SV.FactsProofs.Persist
+import SV.FactsProofs.Sync
 import SV.GenProofs.Persist
 namespace SV.Props.C10
 open SV SV.Persist
